@@ -41,6 +41,9 @@ pub enum Fault {
     JunkClose,
     /// junk lines followed by well-formed frames on the same connection (used by C13's TCP sub-check)
     JunkThenFrames,
+    /// accept, send a truncated frame (n digits, no line feed) and close normally (FIN): the partial last line is a
+    /// malformed line; with n = 28 the unterminated line is a complete frame and must be decoded
+    PartialClose(u8),
     /// the port stays closed for 6.5 s: two connection attempts in a row are refused
     LongRefuse,
     /// accept, deliver a frame, keep the connection open for 5.5 s, then close (a feed that ran for a while)
@@ -262,6 +265,22 @@ fn drive(seq: &[Fault], peer: &mut Peer, child: &mut Child, outpath: &std::path:
                 if next_is_refuse { peer.close(); refused_at = Some(Instant::now()); }
                 drop(conn);
             }
+            Some(Fault::PartialClose(n)) => {
+                let (a, _) = new_aircraft(2000 + k);
+                k += 1;
+                let full = bits::es(17, 5, a, bits::me_ident(4, 3, [1, 2, 3, 4, 5, 6, 7, 8])).hex();
+                let n = (n as usize).clamp(1, 28);
+                conn.write_all(full[..n].as_bytes()).map_err(|e| format!("harness: write failed: {}", e))?;
+                let _ = conn.flush();
+                if n == 28 {
+                    learned.push(a); // a complete frame, merely unterminated: processed when the connection ends
+                } else {
+                    must_not.push(a);
+                }
+                std::thread::sleep(Duration::from_millis(100));
+                if next_is_refuse { peer.close(); refused_at = Some(Instant::now()); }
+                drop(conn);
+            }
             Some(Fault::PartialReset(n)) => {
                 disruptive += 1;
                 if !learned.is_empty() { learned_before_disruption = learned.len(); }
@@ -369,6 +388,9 @@ fn sequences(c: &mut Ctx) -> Vec<Vec<Fault>> {
     // feeds that ran for a while before the interruption, and two refused attempts in a row
     v.push(vec![Fault::HoldFrames, Fault::Refuse]);
     v.push(vec![Fault::LongRefuse]);
+    v.push(vec![Fault::PartialClose(14)]);
+    v.push(vec![Fault::PartialClose(27), Fault::FramesClose]);
+    v.push(vec![Fault::FramesClose, Fault::PartialClose(28)]);
     v.push(vec![Fault::FramesClose, Fault::LongRefuse]);
     let n_random = c.tier.pick(18usize, 100usize);
     let lens = if c.tier == Tier::Thorough { 4usize..5 } else { 3usize..5 };
